@@ -24,14 +24,21 @@ func init() {
 		Run:        runC19,
 		Controls: map[string]string{"comments/zz_gvlint_control_c19.go": `package comments
 
-import "go/ast"
+import (
+	"bufio"
+	"go/ast"
+	"strings"
+)
 
 func zzControlTrailing(ts *ast.TypeSpec, f *ast.File) string {
 	_ = f.Comments
+	sc := bufio.NewScanner(strings.NewReader(ts.Doc.Text()))
+	for sc.Scan() {
+	}
 	return ts.Comment.Text() + ts.Doc.Text()
 }
 `},
-		ControlRules: []string{"C19.R1"},
+		ControlRules: []string{"C19.R1", "C19.R10"},
 	})
 }
 
@@ -262,6 +269,8 @@ func runC19(p *Prog, r *Report) {
 		{"comments.ParseDocs", "files of a package", "ast.File"},
 	})
 	sharedMapAliasRule(p, r, "C19.R8")
+	localConfigFunctionsOnlyRule(p, r, "C19.R9")
+	noScannerRule(p, r, "C19.R10")
 }
 
 // docOrigin: e is parse.CommentToString(X.Doc) (possibly via a local variable or a
